@@ -273,10 +273,7 @@ def shrink_case(prop: Any, case: Any, sig: str, budget: int = 300, seconds: floa
         for kind, path in list(_paths(case, deletable, strkeys)):
             if spent >= budget or time.monotonic() - start >= seconds:
                 break
-            try:
-                cur = _get(case, path)
-            except (KeyError, IndexError, TypeError):
-                continue
+            cur = _get(case, path)
             if kind == "list":
                 chunk = max(len(cur) // 2, 1)
                 while chunk >= 1 and spent < budget:
@@ -301,6 +298,8 @@ def shrink_case(prop: Any, case: Any, sig: str, budget: int = 300, seconds: floa
                         case = cand
                         progress = True
                         break
+            if progress:
+                break  # paths are stale now: recompute
     return case
 
 
